@@ -108,7 +108,11 @@ func (s *Service) ScheduleJob(ctx context.Context,
 		case <-ctx.Done():
 			s.log.Trace().Str("job", name).Time("scheduled", runtime).Msg("Parent context done; job not running")
 			s.jobsMutex.Lock()
-			delete(s.jobs, name)
+			// The name may have been scheduled again since this job was claimed or cancelled:
+			// only remove the entry if it is still this job's.
+			if s.jobs[name] == job {
+				delete(s.jobs, name)
+			}
 			s.jobsMutex.Unlock()
 			finaliseJob(job)
 			monitorJobCancelled(class)
@@ -143,7 +147,9 @@ func (s *Service) ScheduleJob(ctx context.Context,
 				break
 			}
 			s.jobsMutex.Lock()
-			delete(s.jobs, name)
+			if s.jobs[name] == job {
+				delete(s.jobs, name)
+			}
 			s.jobsMutex.Unlock()
 			s.log.Trace().Str("job", name).Time("scheduled", runtime).Msg("Timer triggered; job running")
 			job.active.Store(true)
@@ -200,7 +206,9 @@ func (s *Service) SchedulePeriodicJob(ctx context.Context,
 			if errors.Is(err, scheduler.ErrNoMoreInstances) {
 				s.log.Trace().Str("job", name).Msg("No more instances; period job stopping")
 				s.jobsMutex.Lock()
-				delete(s.jobs, name)
+				if s.jobs[name] == job {
+					delete(s.jobs, name)
+				}
 				s.jobsMutex.Unlock()
 				finaliseJob(job)
 				monitorJobCancelled(class)
@@ -209,7 +217,9 @@ func (s *Service) SchedulePeriodicJob(ctx context.Context,
 			if err != nil {
 				s.log.Error().Str("job", name).Err(err).Msg("Failed to obtain runtime; periodic job stopping")
 				s.jobsMutex.Lock()
-				delete(s.jobs, name)
+				if s.jobs[name] == job {
+					delete(s.jobs, name)
+				}
 				s.jobsMutex.Unlock()
 				finaliseJob(job)
 				monitorJobCancelled(class)
@@ -220,7 +230,9 @@ func (s *Service) SchedulePeriodicJob(ctx context.Context,
 			case <-ctx.Done():
 				s.log.Trace().Str("job", name).Time("scheduled", runtime).Msg("Parent context done; job not running")
 				s.jobsMutex.Lock()
-				delete(s.jobs, name)
+				if s.jobs[name] == job {
+					delete(s.jobs, name)
+				}
 				s.jobsMutex.Unlock()
 				finaliseJob(job)
 				monitorJobCancelled(class)
